@@ -8,11 +8,11 @@ emit(doc, rng=None)   -> YAML text
 import copy
 
 OS_POOL = ["linux", "windows", "bsd", "macos", "win", "linux64", "Linux",
-           "os x"]
+           "os x", "x"]
 SRV_POOL = ["ssh", "ftp", "http", "samba", "smtp", "rdp", "https", "sshd",
-            "SSH", "web server", "ssh-2", "sql_db"]
+            "SSH", "web server", "ssh-2", "sql_db", "s", "w"]
 PROC_POOL = ["tomcat", "daclsvc", "schtask", "cron", "crond", "Tomcat",
-             "task scheduler"]
+             "task scheduler", "p"]
 
 SECTION_ORDER = ["subnets", "topology", "sensitive_hosts", "os", "services",
                  "processes", "exploits", "privilege_escalation",
